@@ -94,7 +94,7 @@ Section Sub.
     In s (byref E cf v call N hsup t) -> In s (subvalues v).
   Proof.
     induction v as [z | | z | l | k l xs IH | k l kvs IH | c l fs IH] using lv_ind';
-      intros call N hsup t; induction t as [| lk | | | t' IHt | o t' IHt | t' IHt | ts IHts | o kt IHk vt IHv | c0 | tw IHw | us IHus |] using ty_ind';
+      intros call N hsup t; induction t as [| lk | | | t' IHt | o t' IHt | t' IHt | ts IHts | o kt IHk vt IHv | c0 | tw IHw | us IHus | | | dd] using ty_ind';
       intros s Hs; try (apply IHw; exact Hs; fail);
       try (rewrite byref_union in Hs; revert Hs; apply pick_in with (Q := fun s => In s (subvalues _)); exact IHus);
       simpl in Hs; try contradiction;
@@ -147,7 +147,7 @@ Fixpoint anyfree (t: ty) : bool :=
   | TMap _ kt vt => anyfree kt && anyfree vt
   | TWrap t' => anyfree t'
   | TUnion ts => forallb anyfree ts
-  | TNone => true
+  | TNone | TLit | TAbsent _ => true
   end.
 
 Definition default_env (E: env) : Prop :=
@@ -176,7 +176,7 @@ Section Default.
     anyfree t = true -> byref E cf v None [] hsup t = [].
   Proof.
     induction v as [z | | z | l | k l xs IH | k l kvs IH | c l fs IH] using lv_ind';
-      intros hsup t; induction t as [| lk | | | t' IHt | o t' IHt | t' IHt | ts IHts | o kt IHk vt IHv | c0 | tw IHw | us IHus |] using ty_ind';
+      intros hsup t; induction t as [| lk | | | t' IHt | o t' IHt | t' IHt | ts IHts | o kt IHk vt IHv | c0 | tw IHw | us IHus | | | dd] using ty_ind';
       intros Ha; try (apply IHw; exact Ha; fail); simpl in Ha; try discriminate Ha;
       try (rewrite byref_union; apply pick_nil with (p := anyfree); [exact IHus | exact Ha]; fail);
       try reflexivity;
@@ -212,7 +212,7 @@ Section DefaultUnpack.
   Lemma anyref_anyfree_nil : forall w t, anyfree t = true -> anyref E w t = [].
   Proof.
     induction w as [z | | z | l | k l xs IH | k l kvs IH | c l fs IH] using lv_ind';
-      intros t; induction t as [| lk | | | t' IHt | o t' IHt | t' IHt | ts IHts | o kt IHk vt IHv | c0 | tw IHw | us IHus |] using ty_ind';
+      intros t; induction t as [| lk | | | t' IHt | o t' IHt | t' IHt | ts IHts | o kt IHk vt IHv | c0 | tw IHw | us IHus | | | dd] using ty_ind';
       intros Ha; try (apply IHw; exact Ha; fail); simpl in Ha; try discriminate Ha;
       try (rewrite anyref_union; apply pick_nil with (p := anyfree); [exact IHus | exact Ha]; fail);
       try reflexivity;
@@ -242,7 +242,7 @@ Qed.
 Lemma anyref_sub E : forall w t s, In s (anyref E w t) -> In s (subvalues w).
 Proof.
   induction w as [z | | z | l | k l xs IH | k l kvs IH | c l fs IH] using lv_ind';
-    intros t; induction t as [| lk | | | t' IHt | o t' IHt | t' IHt | ts IHts | o kt IHk vt IHv | c0 | tw IHw | us IHus |] using ty_ind';
+    intros t; induction t as [| lk | | | t' IHt | o t' IHt | t' IHt | ts IHts | o kt IHk vt IHv | c0 | tw IHw | us IHus | | | dd] using ty_ind';
     intros s Hs; try (apply IHw; exact Hs; fail);
     try (rewrite anyref_union in Hs; revert Hs; apply pick_in with (Q := fun s => In s (subvalues _)); exact IHus);
     simpl in Hs; try contradiction;
@@ -286,13 +286,14 @@ Fixpoint optfree (t: ty) : bool :=
   | TMap _ kt vt => optfree kt && optfree vt
   | TWrap t' => optfree t'
   | TUnion ts => forallb optfree ts
-  | TNone => true
+  | TNone | TAbsent _ => true
+  | TLit => false          (* like Optional: the packer is not the bare name although no conversion is needed *)
   end.
 Definition optfree_env (E: env) : Prop := forall c, forallb optfree (E.(e_ct) c).(c_fields) = true.
 
 Lemma ident_conv_free E N t : optfree t = true -> ident E N t = conv_free E N t.
 Proof.
-  unfold ident. induction t as [| k | | | t IHt | o t IHt | t IHt | ts IHts | o t1 IHt1 t2 IHt2 | c0 | tw IHw | us IHus |] using ty_ind';
+  unfold ident. induction t as [| k | | | t IHt | o t IHt | t IHt | ts IHts | o t1 IHt1 t2 IHt2 | c0 | tw IHw | us IHus | | | dd] using ty_ind';
     intros H; simpl in H; try discriminate H; simpl; try reflexivity; try (apply IHw; exact H; fail).
   - destruct (e_lp E k); destruct k; reflexivity.
   - unfold seq_expr. rewrite <- (IHt H). destruct (is_id (cp E N false t)).
@@ -327,7 +328,7 @@ Section OptFree.
     optfree t = true -> byref E (ident E) v call N hsup t = byref E (conv_free E) v call N hsup t.
   Proof.
     induction v as [z | | z | l | k l xs IH | k l kvs IH | c l fs IH] using lv_ind';
-      intros call N hsup t; induction t as [| lk | | | t' IHt | o t' IHt | t' IHt | ts IHts | o kt IHk vt IHv | c0 | tw IHw | us IHus |] using ty_ind';
+      intros call N hsup t; induction t as [| lk | | | t' IHt | o t' IHt | t' IHt | ts IHts | o kt IHk vt IHv | c0 | tw IHw | us IHus | | | dd] using ty_ind';
       intros Ha; try (apply IHw; exact Ha; fail); simpl in Ha; try discriminate Ha;
       try (rewrite !byref_union; apply pick_ext with (p := optfree); [exact IHus | exact Ha]; fail);
       try reflexivity.
@@ -383,7 +384,7 @@ Section DecodeDialect.
   Lemma run_unpack_dialect_free : forall w t n, run_unpack E w (cu t) n = run_unpack E' w (cu t) n.
   Proof.
     induction w as [z | | z | l | k l xs IH | k l kvs IH | c l fs IH] using lv_ind';
-      intros t; induction t as [| lk | | | t' IHt | o t' IHt | t' IHt | ts IHts | o kt IHk vt IHv | c0 | tw IHw | us IHus |] using ty_ind';
+      intros t; induction t as [| lk | | | t' IHt | o t' IHt | t' IHt | ts IHts | o kt IHk vt IHv | c0 | tw IHw | us IHus | | | dd] using ty_ind';
       intros n; try reflexivity; try (apply IHw; fail);
       try (cbn [cu]; rewrite !ru_opt; first [reflexivity | apply IHt]; fail);
       try (cbn [cu]; rewrite !ru_union;
